@@ -95,6 +95,17 @@ def variants(kinds):
                 nested = any(isinstance(n, (ast.FunctionDef, ast.AsyncFunctionDef)) for n in ast.walk(fn) if n is not fn)
                 if ifs and not nested:
                     out.append(("G", f"{rel}:{q}: if/else branches inverted ({len(ifs)})", rel, (q, None)))
+            if "H" in kinds:
+                cmps = [n for n in ast.walk(fn) if isinstance(n, ast.Compare) and len(n.ops) == 1 and isinstance(n.ops[0], (ast.Eq, ast.NotEq))]
+                if cmps:
+                    out.append(("H", f"{rel}:{q}: operands of ==/!= swapped ({len(cmps)})", rel, (q, None)))
+            if "I" in kinds:
+                nest = [n for n in ast.walk(fn) if isinstance(n, ast.If) and not n.orelse and len(n.body) == 1 and isinstance(n.body[0], ast.If) and not n.body[0].orelse]
+                ands = [n for n in ast.walk(fn) if isinstance(n, ast.If) and not n.orelse and isinstance(n.test, ast.BoolOp) and isinstance(n.test.op, ast.And)]
+                if nest:
+                    out.append(("I", f"{rel}:{q}: nested ifs merged with `and` ({len(nest)})", rel, (q, "merge")))
+                if ands:
+                    out.append(("I", f"{rel}:{q}: `and` conditions split into nested ifs ({len(ands)})", rel, (q, "split")))
             if "E" in kinds:
                 rets = [n for n in ast.walk(fn) if isinstance(n, ast.Return) and n.value is not None and not isinstance(n.value, (ast.Constant, ast.Name))]
                 nested = any(isinstance(n, (ast.FunctionDef, ast.AsyncFunctionDef, ast.Lambda)) for n in ast.walk(fn) if n is not fn)
@@ -128,6 +139,23 @@ def make_variant(sc, kind, rel, arg):
                     if isinstance(n, ast.If) and n.orelse and not (len(n.orelse) == 1 and isinstance(n.orelse[0], ast.If)):
                         n.test = ast.UnaryOp(op=ast.Not(), operand=n.test)
                         n.body, n.orelse = n.orelse, n.body
+            elif kind == "H":
+                for n in ast.walk(fn):
+                    if isinstance(n, ast.Compare) and len(n.ops) == 1 and isinstance(n.ops[0], (ast.Eq, ast.NotEq)):
+                        n.left, n.comparators[0] = n.comparators[0], n.left
+            elif kind == "I":
+                class NI(ast.NodeTransformer):
+                    def visit_If(self, node):
+                        self.generic_visit(node)
+                        if v == "merge" and not node.orelse and len(node.body) == 1 and isinstance(node.body[0], ast.If) and not node.body[0].orelse:
+                            inner = node.body[0]
+                            return ast.copy_location(ast.If(test=ast.BoolOp(op=ast.And(), values=[node.test, inner.test]), body=inner.body, orelse=[]), node)
+                        if v == "split" and not node.orelse and isinstance(node.test, ast.BoolOp) and isinstance(node.test.op, ast.And):
+                            vals = node.test.values
+                            inner = ast.If(test=vals[-1] if len(vals) == 2 else ast.BoolOp(op=ast.And(), values=vals[1:]), body=node.body, orelse=[])
+                            return ast.copy_location(ast.If(test=vals[0], body=[inner], orelse=[]), node)
+                        return node
+                NI().visit(fn)
             elif kind == "E":
                 class Ret(ast.NodeTransformer):
                     def visit_FunctionDef(self, node):
@@ -179,7 +207,7 @@ def main():
     args = sys.argv[1:]
     props = ALL
     limit = None
-    kinds = [a for a in args if a in ("A", "B", "C", "D", "E", "G")] or ["A", "B", "C", "D", "E", "G"]
+    kinds = [a for a in args if a in ("A", "B", "C", "D", "E", "G", "H", "I")] or ["A", "B", "C", "D", "E", "G", "H", "I"]
     for i, a in enumerate(args):
         if a == "--props":
             props = args[i + 1].split(",")
